@@ -297,6 +297,7 @@ inline Sym ufn(const std::string& name, std::initializer_list<Sym> args) {
 // ---- driver API
 typedef Sym S;
 inline S in(const std::string& name) { return Sym::input(name); }
+inline S in_or(const std::string& name, double) { return Sym::input(name); }  // symbolic: an input like any other
 inline void out(const std::string& name, const S& v) { Store::get().outs.emplace_back(name, v.term()); }
 inline void out_bool(const std::string& name, const SymBool& v) { Store::get().outs.emplace_back("B:" + name, v.term()); }
 inline void note(const std::string& what) { Store::get().notes.push_back(what); }
@@ -389,6 +390,10 @@ inline S in(const std::string& name) {
     exit(7);
   }
   return it->second;
+}
+inline S in_or(const std::string& name, S dflt) {  // warm-up inputs: a default when the replay does not name them
+  auto it = CStore::get().inputs.find(name);
+  return it == CStore::get().inputs.end() ? dflt : it->second;
 }
 inline void out(const std::string& name, S v) { printf("out %s %.17g\n", name.c_str(), v); }
 inline void out_bool(const std::string& name, bool v) { printf("outb %s %d\n", name.c_str(), v ? 1 : 0); }
